@@ -394,7 +394,7 @@ Fixpoint enc_lines1 (hfuel : nat) (pk : pkg) (p : jparams) (w : Z) (wn : nat) (y
   | S hf =>
     match enc_line1 (S wn) pk p w y pfp pn1 st 0 (0 :: prev) [] (firstn wn pix) ops_rev with
     | Ok (st', cur_rev, ops') =>
-      let cur := rev cur_rev in
+      let cur := frev cur_rev in
       enc_lines1 hf pk p w wn (y + 1) (line_first cur) pfp st' cur (skipn wn pix) ops'
     | Err => Err | Panic => Panic | OutOfFuel => OutOfFuel
     end
@@ -409,7 +409,7 @@ Fixpoint dec_lines1 (hfuel : nat) (pk : pkg) (p : jparams) (w : Z) (wn : nat) (y
   | S hf =>
     match dec_line1 (S wn) pk p w y pfp pn1 st 0 (0 :: prev) [] bits with
     | Ok (st', cur_rev, r) =>
-      let cur := rev cur_rev in
+      let cur := frev cur_rev in
       match dec_lines1 hf pk p w wn (y + 1) (line_first cur) pfp st' cur r with
       | Ok ls => Ok (cur :: ls)
       | Err => Err | Panic => Panic | OutOfFuel => OutOfFuel
@@ -629,7 +629,7 @@ Fixpoint enc_lines3 (hfuel : nat) (pk : pkg) (p : jparams) (w : Z) (wn : nat) (y
   | S hf =>
     match enc_line3 (S wn) pk p w y plf pplf st 0 (z3 :: prev) [] (firstn wn pix) ops_rev with
     | Ok (st', cur_rev, ops') =>
-      let cur := rev cur_rev in
+      let cur := frev cur_rev in
       enc_lines3 hf pk p w wn (y + 1) (line_first3 cur) plf st' cur (skipn wn pix) ops'
     | Err => Err | Panic => Panic | OutOfFuel => OutOfFuel
     end
@@ -643,7 +643,7 @@ Fixpoint dec_lines3 (hfuel : nat) (pk : pkg) (p : jparams) (w : Z) (wn : nat) (y
   | S hf =>
     match dec_line3 (S wn) pk p w y plf pplf st 0 (z3 :: prev) [] bits with
     | Ok (st', cur_rev, r) =>
-      let cur := rev cur_rev in
+      let cur := frev cur_rev in
       match dec_lines3 hf pk p w wn (y + 1) (line_first3 cur) plf st' cur r with
       | Ok ls => Ok (cur :: ls)
       | Err => Err | Panic => Panic | OutOfFuel => OutOfFuel
@@ -722,7 +722,7 @@ Definition encode_scan_ops (pk : pkg) (p : jparams) (w h comps : Z) (pixels : li
   match (if comps >? 1
          then enc_lines3 hn pk p w wn 0 z3 z3 st [] (triples pixels) []
          else enc_lines1 hn pk p w wn 0 0 0 st [] pixels []) with
-  | Ok ops_rev => Ok (rev ops_rev)
+  | Ok ops_rev => Ok (frev ops_rev)
   | Err => Err | Panic => Panic | OutOfFuel => OutOfFuel
   end.
 
